@@ -576,6 +576,19 @@ pub fn ev_serde<K: Kmer + Send + Sync + serde::Serialize + serde::de::Deserializ
         let g = base.finish();
         let g2: DebruijnGraph<K, D> = serde_json::from_str(&serde_json::to_string(&g).unwrap()).unwrap();
         items.push(json!({"ty":"graph","before":graph_answers(&g, &probes),"after":graph_answers(&g2, &probes),"eq":true,"rc_eq":true}));
+        // combining shard graphs keeps every node in order; mixing strandedness must be refused (panic)
+        let half = nodes.len() / 2;
+        let ga = base_from_nodes::<K>(&nodes[..half], inp.stranded);
+        let gb = base_from_nodes::<K>(&nodes[half..], inp.stranded);
+        let comb = BaseGraph::combine(vec![ga, gb].into_iter());
+        items.push(json!({"ty":"combine","before":{"st":inp.stranded,"nodes":nodes_json(nodes)},
+            "after":{"st":comb.stranded,"nodes":nodes_json(&project_base(&comb))},"eq":true,"rc_eq":true}));
+        let mixed = std::panic::catch_unwind(|| {
+            let a: BaseGraph<K, D> = BaseGraph::new(true);
+            let b: BaseGraph<K, D> = BaseGraph::new(false);
+            BaseGraph::combine(vec![a, b].into_iter()).stranded
+        });
+        items.push(json!({"ty":"combine-mixed","before":"refused","after": if mixed.is_err() { "refused" } else { "accepted" },"eq":true,"rc_eq":true}));
         items
     });
     sink.end_case();
